@@ -73,10 +73,29 @@ class Member(int):
         return f'{self.enum}.{self.mname}'
 
 
+class PlainMember:
+    """member of a plain Enum (values of any kind): equal and identical only to itself, not ordered"""
+
+    def __init__(self, value, enum, name):
+        self.value, self.enum, self.mname = value, enum, name
+
+    def __eq__(self, o):
+        return isinstance(o, PlainMember) and (o.enum, o.mname) == (self.enum, self.mname)
+
+    def __ne__(self, o):
+        return not self.__eq__(o)
+
+    def __hash__(self):
+        return hash((self.enum, self.mname))
+
+    def __repr__(self):
+        return f'{self.enum}.{self.mname}'
+
+
 class EnumClass:
-    def __init__(self, name, members):
+    def __init__(self, name, members, plain=False):
         self.name = name
-        self.members = {k: Member(v, name, k) for k, v in members.items()}
+        self.members = {k: (PlainMember(v, name, k) if plain else Member(v, name, k)) for k, v in members.items()}
 
     def __len__(self):
         return len(self.members)
@@ -117,8 +136,9 @@ class Interp:
         elif r[0] == 'class':
             ci = r[1]
             if any('Enum' in b for b in ci.ext_bases):
-                from .enumtab import enum_members
-                v = EnumClass(ci.name, enum_members(self.prog, ci.mod.name, ci.name))
+                from .enumtab import enum_members, plain_members
+                pm_ = plain_members(self.prog, ci) if not any('IntEnum' in b or 'IntFlag' in b for b in ci.ext_bases) else None
+                v = EnumClass(ci.name, pm_, plain=True) if pm_ is not None else EnumClass(ci.name, enum_members(self.prog, ci.mod.name, ci.name))
             else:
                 v = Sym('class ' + ci.key)
                 v.cls = ci
@@ -418,7 +438,9 @@ class Interp:
                 raise Unknown(f'attribute {e.attr} of the configuration object')
             if isinstance(o, Member) and e.attr == 'value':
                 return int(o)
-            if isinstance(o, Member) and e.attr == 'name':
+            if isinstance(o, PlainMember) and e.attr == 'value':
+                return o.value
+            if isinstance(o, (Member, PlainMember)) and e.attr == 'name':
                 return o.mname
             if isinstance(o, Sym) and getattr(o, 'cls', None) is not None:
                 v = self.class_value(o.cls, e.attr)
@@ -494,7 +516,9 @@ class Interp:
 
     def compare(self, op, a, b):
         if isinstance(op, (ast.Is, ast.IsNot)):
-            if isinstance(a, Member) or isinstance(b, Member):
+            if isinstance(a, PlainMember) or isinstance(b, PlainMember):
+                same = a == b
+            elif isinstance(a, Member) or isinstance(b, Member):
                 same = isinstance(a, Member) and isinstance(b, Member) and a.enum == b.enum and a.mname == b.mname
             elif a is None or b is None or isinstance(a, bool) or isinstance(b, bool):
                 same = a is b
